@@ -267,15 +267,15 @@ STREAM = (" Second stage on every run: the same cases in production configuratio
           "device that reads a message's bytes 17 messages late): the flat stream must equal the concatenation of the stepped run's outputs, so the "
           "theorems' per-history message sequences hold for every pace of the consumer.")
 EXTRA = {
- "C01": STREAM, "C02": STREAM, "C03": STREAM + " Episodes include keys of one pitch with different channel offsets meeting on a channel through the 15->0 wrap.",
- "C04": STREAM, "C05": STREAM, "C06": STREAM, "C07": STREAM, "C08": STREAM,
+ "C01": STREAM + " C01_at_the_port / C01_quiescent_at_the_port_partial carry the statements through the relay to the port (Model/EndToEnd.v).", "C02": STREAM, "C03": STREAM + " Episodes include keys of one pitch with different channel offsets meeting on a channel through the 15->0 wrap.",
+ "C04": STREAM, "C05": STREAM, "C06": STREAM, "C07": STREAM + " C07_at_the_port: the invariant holds at the port at every event boundary of the device (Model/EndToEnd.v).", "C08": STREAM,
  "C13": STREAM + " C13_at_the_port carries the statement through the relay to the port (Model/EndToEnd.v, all interleavings, any capacities).",
  "C14": STREAM + " Templates cover every release path of a sequence key (also the stale-note path after a mapping switch).",
  "C09": " Unknown and known keys are printed in every spelling TOML has for a key (bare, literal/basic quoted, escapes, empty, dotted); the second pass over the inputs runs from 8 goroutines at once.",
  "C10": " Known keys are also printed quoted/escaped; the second pass over the inputs runs from 8 goroutines at once.",
  "C11": " A concurrent pass converts every accepted name and look-alikes from 16 goroutines at once and compares with the sequential answers.",
  "C12": " One generated file in six is present as a symbolic link to a regular file outside the tree.",
- "C15": " End to end: Model/EndToEnd.v composes the device model with the relay; C15_device_to_port / _complete / C15_pipeline_progress hold for any number of devices, all interleavings, any capacities.",
+ "C15": " End to end: Model/EndToEnd.v composes the device model with the relay; C15_device_to_port / _complete / _boundary / C15_pipeline_progress hold for any number of devices, all interleavings, any capacities.",
  "C16": " Scenarios include several devices built from ONE configuration value (as the manager does), gamepads with axis events and keyboards with LED loops.",
  "C17": " MIDI-input streams include stray and duplicate releases of notes that are not sounding.",
  "C18": " Factory-file states include 'exactly the bytes of another built-in file'.",
